@@ -168,3 +168,16 @@ package objects
 //@   loop 2 invariant t.Columns[i] != nil
 //@   loop 2 invariant 0 <= p.pos && p.pos <= pos(p.r) && pos(p.r) <= streamLen(p.r) && p.r != nil && p.buf != nil
 //@   loop 2 decreases streamLen(p.r) - pos(p.r)
+
+// StringSliceIsLess(pk, a, b): the order in which the sorter arranges decoded rows: lexicographic by the key columns
+// (all columns when there is no key), each cell compared as a string (byte order).
+//@ func StringSliceIsLess
+//@   props C19
+//@   modifies nothing
+//@   requires forall(k, 0, len(pk), pk[k] < len(a) && pk[k] < len(b)) && (len(pk) == 0 ==> len(a) <= len(b))
+//@   ensures len(pk) == 0 ==> (result <==> exists(k, 0, len(a), a[k] < b[k] && forall(m, 0, k, a[m] == b[m])))
+//@   ensures len(pk) > 0 ==> (result <==> exists(k, 0, len(pk), a[pk[k]] < b[pk[k]] && forall(m, 0, k, a[pk[m]] == b[pk[m]])))
+//@   loop 1 invariant iter <= len(a) && len(pk) == 0 && forall(m, 0, iter, a[m] == b[m])
+//@   loop 1 decreases len(a) - iter
+//@   loop 2 invariant iter <= len(pk) && len(pk) > 0 && forall(m, 0, iter, a[pk[m]] == b[pk[m]])
+//@   loop 2 decreases len(pk) - iter
